@@ -54,6 +54,8 @@ def run(ctx):
             recover(ctx, f, c, e.node, f'{e.kind} {norm(e.node)[:40]}', committer, arr_app)
     d5_cache(ctx, ctx.repo.cls('Array'), committer)   # D4
     d4_rewrite_keeps_keys(ctx)
+    from ._shared import inplace_rewrites_truncate
+    inplace_rewrites_truncate(ctx, 'D4')
     d4_reader_returns_whole_descriptor(ctx)
     from ._shared import opener_branch_agreement
     opener_branch_agreement(ctx, 'D5')
